@@ -241,6 +241,38 @@ class Validator:
         except tv.NoRef as e:
             ctx.inconclusive_case(f"{name}: no reference ({e})")
             return
+        if name == "split_non_commuting" and kwargs.get("shot_dist") is not None and tape.shots and len(tape.measurements) == 1 \
+                and not tape.shots.has_partitioned_shots and type(tape.measurements[0]).__name__ == "ExpectationMP":
+            # documented shot allocation may give a commuting group zero shots; that group is then not measured at all (an estimator
+            # decision): the claim that remains is that post-processing works and returns offset + sum over the MEASURED terms
+            try:
+                cs_, ts_ = tape.measurements[0].obs.terms()
+                measured = {hash(m_.obs) for t_ in tapes for m_ in t_.measurements if m_.obs is not None}
+                all_terms = {hash(t_) for t_ in ts_ if type(t_).__name__ != "Identity"}
+                dropped = all_terms - measured
+            except Exception:  # noqa: BLE001
+                dropped = set()
+            if dropped:
+                ctx.count("shot_dist_zero_shot_group_dropped")
+                ctx.ev("pipeline.result")
+                wires_ = list(tape.wires)
+                psi_, _ = tv.state(list(tape.operations), wires_)
+                exp_partial = 0.0
+                for c_, t_ in zip(cs_, ts_):
+                    if type(t_).__name__ == "Identity":
+                        exp_partial += float(np.real(complex(np.asarray(c_))))
+                    elif hash(t_) in measured:
+                        exp_partial += float(np.real(complex(np.asarray(c_)))) * tv.measure(psi_, wires_, self.qp.expval(t_))
+                try:
+                    got = fn(tuple(res))
+                    bad = compare(got, np.float64(exp_partial))
+                except Exception as e:  # noqa: BLE001
+                    bad = f": post-processing raised {type(e).__name__}: {e}"
+                if bad:
+                    ctx.violation("pipeline.result", f"{name}: a commuting group received zero shots and was dropped, after which the post-processing "
+                                                     f"mis-indexes the remaining groups{bad}", case=self.witness(name, tape, tapes, kwargs),
+                                  mech="shot-dist-zero-shot-group-misindexed")
+                return
         ctx.ev("pipeline.result")
         try:
             got = fn(tuple(res))
